@@ -17,14 +17,23 @@
        newline are dropped; spaces made by a tab are pushed immediately and survive), so
        the two agree exactly after `rstrip`.
 
-   Hypotheses added to the intended statement, each with a counterexample below:
+   Hypotheses added to the intended statement, each with a counterexample at the end:
      - `ctl_ws src`: a character whose code point is 9 or 10 is whitespace (`ws = true`).
        The model only recognises tab/newline among whitespace characters, the reference
-       looks at the code point only.  True of every real character.
+       looks at the code point only.  True of every real character.  Needed by all
+       theorems (cx_newline_not_whitespace, cx_tab_not_whitespace,
+       cx_newline_not_whitespace_tag).
      - `words_pos src`: every whitespace-separated word has display width >= 1 (the
        hypothesis `all_words_pos` of C04).  A word made only of zero-width characters is
        not flushed by the following whitespace (`0 <? wordlen` is false): it slides behind
-       the spaces, or onto the next line at a newline. *)
+       the spaces, or onto the next line at a newline (cx_zero_width_word_slides,
+       cx_zero_width_word_next_line).  Needed for the strings only: `c12_fits_main_tag`
+       is proved without it.
+   `1 <= W` is kept in the statements as given but is not used (a tab or any character
+   with a width already forces W >= 1 through `fits`).
+
+   Theorems: c12_verbatim, c12_verbatim_prefix (string-level form), c12_fits_main_tag,
+   c12_line_count, c12_line_count_newlines. *)
 From H2T Require Import Base Tagged Wrap Spec.Pre Spec.Greedy.
 From H2T.Proofs Require Import WrapInv.
 From Coq Require Import Lia ZifyN ZifyBool ZifyNat.
@@ -904,6 +913,38 @@ Proof.
   apply (f_equal (@length text)) in Hm. rewrite !map_length in Hm. exact Hm.
 Qed.
 
+(* every newline of the source accounts for exactly one output line; the piece after the
+   last newline for one more iff it has something visible *)
+Definition newlines (src : text) : nat := length (filter (fun c => cp c =? 10) src).
+
+Lemma split_aux_length s : forall acc, length (split_lines_aux s acc) = S (newlines s).
+Proof.
+  unfold newlines. induction s as [|c s IH]; intros acc; cbn [split_lines_aux filter];
+    [reflexivity|].
+  destruct (cp c =? 10); cbn [length]; rewrite IH; reflexivity.
+Qed.
+
+Lemma kept_lines_length src :
+  length (kept_lines src) =
+  (newlines src + if existsb vis (last (split_lines src) []) then 1 else 0)%nat.
+Proof.
+  unfold kept_lines. cbv zeta.
+  assert (HL : length (split_lines src) = S (newlines src)) by apply split_aux_length.
+  destruct (existsb vis (last (split_lines src) [])); [lia|].
+  assert (Hne : split_lines src <> []) by (intros E; rewrite E in HL; discriminate HL).
+  pose proof (@app_removelast_last text (split_lines src) [] Hne) as E.
+  apply (f_equal (@length text)) in E. rewrite app_length in E. cbn [length] in E. lia.
+Qed.
+
+Corollary c12_line_count_newlines : forall W src t1 t2 ls,
+  1 <= W -> ctl_ws src -> words_pos src -> fits W src ->
+  pre_lines W src t1 t2 = Ok ls ->
+  length ls = (newlines src + if existsb vis (last (split_lines src) []) then 1 else 0)%nat.
+Proof.
+  intros W src t1 t2 ls HW Hok Hwp Hfits E.
+  rewrite (c12_line_count W src t1 t2 ls HW Hok Hwp Hfits E). apply kept_lines_length.
+Qed.
+
 (* boolean forms of the hypotheses, for concrete sources *)
 Lemma ctl_ws_dec src :
   forallb (fun c => implb ((cp c =? 9) || (cp c =? 10)) (ws c)) src = true -> ctl_ws src.
@@ -1049,4 +1090,5 @@ Print Assumptions c12_verbatim.
 Print Assumptions c12_verbatim_prefix.
 Print Assumptions c12_fits_main_tag.
 Print Assumptions c12_line_count.
+Print Assumptions c12_line_count_newlines.
 Print Assumptions c12_nonvacuous.
